@@ -202,6 +202,17 @@ let run_case (line : String.t) : String.t =
        | "indent" ->
            (match indentedContentFilter (arg 0) with
             | Ok t -> token_of_str t | Raise e -> "X " ^ exn_name e | Fuel -> "F")
+       | "spans" | "macros" ->
+           (* inline layer on its own: default definitions, a given safe mode, two macros defined *)
+           let mode = int_of_string (List.nth rest 0) in
+           let s1 = set_mode (document_init s0) (z_of_int mode) in
+           let s1 = set_macros s1 (s1.s_macros @ [ (str_of_token "s109", arg 1); (str_of_token "s110", arg 2) ]) in
+           let r = if fname = "spans" then spans_render !fuel (ienv_of s1) (arg 3)
+                   else macros_render_top !fuel (ienv_of s1) (arg 3) false in
+           (match r with
+            | Ok (h, msgs) -> "O " ^ token_of_str h ^ " " ^ string_of_int (List.length msgs)
+            | Raise e -> "X " ^ exn_name e
+            | Fuel -> "F")
        | _ -> "ERR unknown F function")
   | _ -> "ERR bad case"
 
